@@ -167,6 +167,7 @@ func (Prop) Run(t *core.Tape, o core.RunOpts) *core.Result {
 	var or, and [2]uint64
 	and = [2]uint64{^uint64(0), ^uint64(0)}
 	total := 0
+	returned := 0
 
 	// no garbage collection while a run is in progress: the address-based race hooks rely
 	// on no heap address being reused within a run
@@ -178,39 +179,51 @@ func (Prop) Run(t *core.Tape, o core.RunOpts) *core.Result {
 			if s.Aborted() {
 				return
 			}
-			id := uu.RandomID()
+			// mostly RandomID; sometimes another exported function of the package that hands
+			// out IDs, if the tree under test has one
+			var ids []uu.ID
+			if len(ExtraSources) > 0 && t.Bool(1, 3) {
+				k := t.Choose(len(ExtraSources))
+				ids = ExtraSources[k](1 + t.Choose(4))
+				res.Probes.Inc("extra_id_source_called")
+			} else {
+				ids = []uu.ID{uu.RandomID()}
+			}
 			if s.Aborted() {
 				return
 			}
-			total++
-			// I3 layout: raw words and accessors
-			if (id.Higher>>12)&0xf != 4 || id.Lower>>62 != 2 {
-				s.Fail("I3-layout", "layout", fmt.Sprintf("t%d call %d returned %016x%016x: version nibble %x (want 4), variant bits %02b (want 10), entropy mode %s", task, c, id.Higher, id.Lower, (id.Higher>>12)&0xf, id.Lower>>62, vrand.EntropyNames[entropy]))
-				return
-			}
-			if id.Version() != 4 || id.Variant() != 1 {
-				s.Fail("I3-layout", "accessors", fmt.Sprintf("t%d call %d: ID %016x%016x reports Version()=%d Variant()=%d (want 4 and 1)", task, c, id.Higher, id.Lower, id.Version(), id.Variant()))
-				return
-			}
-			// I4 duplicates: only where every honest draw is distinct by construction
-			if entropy == vrand.EUniform {
-				if prev, dup := seen[id]; dup {
-					s.Fail("I4-duplicate", "duplicate", fmt.Sprintf("t%d call %d returned %016x%016x, already returned by t%d earlier in this run (uniform entropy: every honest draw is distinct)", task, c, id.Higher, id.Lower, prev))
+			returned++
+			for _, id := range ids {
+				total++
+				// I3 layout: raw words and accessors
+				if (id.Higher>>12)&0xf != 4 || id.Lower>>62 != 2 {
+					s.Fail("I3-layout", "layout", fmt.Sprintf("t%d call %d returned %016x%016x: version nibble %x (want 4), variant bits %02b (want 10), entropy mode %s", task, c, id.Higher, id.Lower, (id.Higher>>12)&0xf, id.Lower>>62, vrand.EntropyNames[entropy]))
 					return
 				}
-				seen[id] = task
+				if id.Version() != 4 || id.Variant() != 1 {
+					s.Fail("I3-layout", "accessors", fmt.Sprintf("t%d call %d: ID %016x%016x reports Version()=%d Variant()=%d (want 4 and 1)", task, c, id.Higher, id.Lower, id.Version(), id.Variant()))
+					return
+				}
+				// I4 duplicates: only where every honest draw is distinct by construction
+				if entropy == vrand.EUniform {
+					if prev, dup := seen[id]; dup {
+						s.Fail("I4-duplicate", "duplicate", fmt.Sprintf("t%d call %d returned %016x%016x, already returned by t%d earlier in this run (uniform entropy: every honest draw is distinct)", task, c, id.Higher, id.Lower, prev))
+						return
+					}
+					seen[id] = task
+				}
+				or[0] |= id.Higher
+				or[1] |= id.Lower
+				and[0] &= id.Higher
+				and[1] &= id.Lower
 			}
-			or[0] |= id.Higher
-			or[1] |= id.Lower
-			and[0] &= id.Higher
-			and[1] &= id.Lower
 			s.Yield(sched.KPostCall, 0)
 		}
 	})
 
 	// E1 progress: every started call returned
-	if s.Viol == nil && s.Infra == "" && total != n*calls {
-		s.Fail("E1-progress", "progress", fmt.Sprintf("%d of %d calls returned", total, n*calls))
+	if s.Viol == nil && s.Infra == "" && returned != n*calls {
+		s.Fail("E1-progress", "progress", fmt.Sprintf("%d of %d calls returned", returned, n*calls))
 	}
 	// E2 bit coverage
 	if s.Viol == nil && s.Infra == "" && entropy == vrand.EUniform && total >= 128 {
